@@ -285,7 +285,8 @@ type peerDev struct {
 	EncAnswer     string
 	ECDH          string // "", "omit", "truncate", "random65", "notb64"
 	NoCipher      bool   // advertise no common cipher
-	Select        string // "", "unoffered", "several", "zero"
+	Select        string // "", "unoffered", "several", "zero", "fs-repeat" (FILESYSTEM in every round, each exchange answered "failed")
+	FSHook        func(round int, path string, clientResult int64) // fs-repeat: called when the client's answer for a round has arrived
 	Denied        bool   // complete sub-protocol, then post-auth ReturnCode DENIED
 	PostAuthClear bool   // send the post-auth ad in the clear
 	// the post-auth ad carries one attribute as in-band secret (marker item + secret
@@ -416,9 +417,30 @@ func scriptedServer(dev peerDev, out *peerOutcome) func(*netsim.End) error {
 					sel = mask | 2 | 4
 				case "zero":
 					sel = 0
+				case "fs-repeat":
+					sel = 4 // FILESYSTEM, whether or not the client still offers it
 				}
 				if err := p.sendMsg(refcodec.EncInt(int64(sel)), false); err != nil {
 					return err
+				}
+				if dev.Select == "fs-repeat" {
+					// server half of one FILESYSTEM exchange: name a directory, read the client's
+					// answer, declare the attempt failed
+					path := fmt.Sprintf("/tmp/FS_rep%d", round)
+					if err := p.sendMsg(refcodec.EncString(path, false), false); err != nil {
+						return err
+					}
+					m, err := p.recvMsg()
+					if err != nil {
+						return err
+					}
+					if dev.FSHook != nil {
+						dev.FSHook(round, path, (&wireReader{b: m}).int())
+					}
+					if err := p.sendMsg(refcodec.EncInt(-1), false); err != nil {
+						return err
+					}
+					continue
 				}
 				if sel == 0 {
 					continue
